@@ -351,10 +351,8 @@ impl Driver {
     /// Run every monitor over the whole pool (called after every op: a quiescent point).
     pub fn check_all(&mut self) {
         self.steps += 1;
+        // every monitor looks at the same quiescent state; one firing must not hide the others
         self.m01_value();
-        if self.failed {
-            return;
-        }
         self.m02_memory();
         self.m03_release();
         self.m04_regions();
